@@ -26,6 +26,24 @@ CHECKS = {
         note="annotations are compared as typing objects (==) against an independent implementation of the documented mapping; text of types.py is not compared (C05 is n/a)",
         ref="§4 C04",
     ),
+    "C06": dict(
+        technique="CrossHair-enumerated flag families over tiny metamodels through the real plugins + z3 relation queries per (plugin, evolved metamodel) + the package-level solver checks re-run on each evolved Python package",
+        text="A bounded family of evolutions is decided, not the unbounded one: every combination of the flag families (type shapes x bases x optional tri-state, keyword/digit names, all subsets of proposed/deprecated/since marks, messages with/without typeName x directions x params x result kinds, all 3^6 extends/mixins graphs on 4 structures, enumerations, anonymous literals at 3 positions) through the python and testdata plugins, and two evolutions of the committed metamodel through all four plugins with the generated Python package put under C04/C09/C10 (thorough: C01-C04, C09, C10, C13, C14).",
+        note="no symbolic value flows into plugin code: the solver is the exhaustive enumerator of the flag space; rust/dotnet tiny families are decided under C07/C08; row-level known findings of C08/C17 are excluded by predicate",
+        ref="§4 C06",
+    ),
+    "C07": dict(
+        technique="CrossHair-enumerated flag families over tiny metamodels through the real rust plugin, emitted lib.rs parsed and compared by relation; z3 differing-index queries over the relations of the emitted and the committed lib.rs",
+        text="For every flag combination of the tiny families and for the committed + 2 evolved full metamodels: same-named struct per structure with serde field names = flattened property names, mapped Rust type, Option iff optional or null-admitting; enum discriminants = metamodel values; or-aliases are untagged enums with one variant per alternative; request/response/notification structs and method-enum renames; cfg(feature=proposed) gating iff proposed - both directions. The committed lib.rs is checked with the same reader.",
+        note="compilation of the crate and serde's behaviour are outside (no Rust toolchain); the independent type mapping is written from the documented rules",
+        ref="§4 C07",
+    ),
+    "C08": dict(
+        technique="CrossHair-enumerated flag families over tiny metamodels through the real dotnet plugin, emitted classes read and compared by relation; z3 differing-index queries per full metamodel",
+        text="For every flag combination of the tiny families and for the committed + 2 evolved full metamodels: one data member per flattened property with the metamodel wire name and mapped C# type, nullable iff optional or null-admitting, null-ignoring iff optional and not null-admitting, assigned in the JSON constructor; exact enum values; exact method strings, request/response pairing and metamodel direction per message class.",
+        note="two families are recorded known findings and excluded by row predicate (optional collection members; notification classes carry no method string); C# compilation / Newtonsoft behaviour outside",
+        ref="§4 C08",
+    ),
     "C09": dict(
         technique="exhaustive z3 relation comparison of the method catalogue / registry with lsp.json + CrossHair lemma on message_direction",
         text="Finite and exhaustive: 95 methods x 7 facts and all module definitions x registry membership/identity, both directions, decided by z3 queries for a differing index; message_direction on a symbolic string outside the methods must raise KeyError.",
